@@ -324,6 +324,16 @@ def run(ctx):
                 open(os.path.join(repo, ".dockerignore"), "w").write(text)
             # sub-directory roots, also inside an ignored directory (everything below is then ignored)
             sub = [e["path"] for e in ents if e["kind"] == "d" and e["path"].count("/") <= 1]
+            nested_checkout = None
+            if tool == "docker":
+                # a checkout nested in the build context (a `.git` directory in a sub-directory that has no .dockerignore of
+                # its own): the context's .dockerignore still applies to a search started there
+                cand = [x for x in sub if "/" not in x and all(ch.isalnum() or ch in "._" for ch in x)]
+                if cand and r.chance(2, 3):
+                    nested_checkout = cand[0]
+                    os.makedirs(os.path.join(repo, nested_checkout, ".git", "refs"), exist_ok=True)
+                    open(os.path.join(repo, nested_checkout, ".git", "HEAD"), "w").write("ref: refs/heads/main\n")
+                    ctx.count("docker_nested_checkout")
             # (for the root spellings that are not canonical: a directory next to the repository, links to it and into it)
             os.makedirs(os.path.join(top, "elsewhere"), exist_ok=True)
             os.symlink(repo_name, os.path.join(top, "lnk-repo"))
@@ -337,7 +347,7 @@ def run(ctx):
             roots.append(("lnk-repo", top, ""))
             if sub:
                 sd = r.choice(sub)
-                if plain_sub and r.chance(1, 2):
+                if plain_sub and (r.chance(1, 2) or nested_checkout):
                     sd = plain_sub[0]
                 roots.append((".", os.path.join(repo, sd), sd))
                 if "/" not in sd and all(ch.isalnum() or ch in "._" for ch in sd):
